@@ -417,8 +417,13 @@ func MulticodeDecodeMultiple(s []byte) []*DenseGraph {
 	var numberOfVerticesLeft byte
 	for i := 0; i < len(s); i++ {
 		if numberOfVerticesLeft == 0 {
-			numberOfVerticesLeft = s[i] - 1
 			startOfGraph = i
+			if s[i] <= 1 {
+				//A graph with at most one vertex has no lists of neighbours so its encoding is the single byte n.
+				graphs = append(graphs, MulticodeDecode(s[i:i+1]))
+				continue
+			}
+			numberOfVerticesLeft = s[i] - 1
 		}
 		if s[i] == 0 {
 			numberOfVerticesLeft--
